@@ -108,8 +108,8 @@ func (cmd *IdleCommand) Wait() error {
 
 func (c *Client) idle() (*idleCommand, error) {
 	cmd := &idleCommand{}
-	contReq := c.registerContReq(cmd)
 	cmd.enc = c.beginCommand("IDLE", cmd)
+	contReq := c.registerContReq(cmd)
 	cmd.enc.flush()
 
 	_, err := contReq.Wait()
